@@ -169,6 +169,56 @@ func f5Attributable(rt *Routing, edges ...Edge) bool {
 	return false
 }
 
+// f16Attributable: the known finding F16 — every wrongly covered location lies in a hole that is attached to a CANCELLED
+// polygon (one whose shell is also one of its holes, the other way round: dedupeInnersOuters keeps such a pair) while a
+// larger polygon around it comes back without that hole.
+func f16Attributable(out [][][]Pt, bad []Pt) bool {
+	sameRing := func(a, b []Pt) bool {
+		if len(a) != len(b) {
+			return false
+		}
+		m := map[Pt]int{}
+		for _, p := range a {
+			m[p]++
+		}
+		for _, p := range b {
+			m[p]--
+		}
+		for _, n := range m {
+			if n != 0 {
+				return false
+			}
+		}
+		return true
+	}
+	for _, p := range bad {
+		found := false
+		for _, pl := range out {
+			if len(pl) < 3 {
+				continue
+			}
+			cancelled := false
+			for _, h := range pl[1:] {
+				cancelled = cancelled || sameRing(pl[0], h)
+			}
+			if !cancelled {
+				continue
+			}
+			for _, h := range pl[1:] {
+				if !sameRing(pl[0], h) && pointInRing(h, p) > 0 {
+					found = true
+				}
+			}
+		}
+		if !found {
+			return false
+		}
+	}
+	return true
+}
+
+const f16What = "a hole that lies inside a cancelled polygon (shell = one of its holes: a C-shaped hole whose sub-pixel band collapsed) is attached to that zero-area polygon instead of the polygon around it, which comes back without the hole and covers it (F16)"
+
 const f5What = "spike removal invents an edge when a routed chain passes a pixel centre three or more times (F5)"
 
 // ---------------------------------------------------------------------------------------------------
@@ -330,6 +380,12 @@ func runC04(c *hc.Ctx) error {
 				g, poly, kind, ids = dg, dp, lastDeepKind, []int{did}
 			}
 		}
+		if i%8 == 5 { // a C-shaped hole with a sub-pixel band around an island that has a hole of its own
+			gg := pickGrid(c, grids)
+			if p2, ok := genCHoleIsland(c.Rng, gg); ok {
+				g, poly, kind, ids = gg, p2, "C-shaped thin hole around an island with a hole", randIDs(c.Rng, gg)
+			}
+		}
 		cfg := randCfg(c.Rng)
 		cfg.IgnoreOutsideGrid = false
 		evalC04(c, g, poly, kind, ids, cfg)
@@ -406,8 +462,19 @@ func evalC04(c *hc.Ctx, g *Grid, poly [][]Pt, kind string, ids []int, cfg snap.C
 		}
 		minx, miny, maxx, maxy := bbox(poly)
 		var bad []Pt
+		// 48 random locations over the bounding box, and the middle of the bounding box of every input ring (the middle of
+		// a hole is where a lost hole shows)
+		var locs []Pt
 		for s := 0; s < 48; s++ {
-			p := Pt{minx - span + c.Rng.Int63n(maxx-minx+2*span+1), miny - span + c.Rng.Int63n(maxy-miny+2*span+1)}
+			locs = append(locs, Pt{minx - span + c.Rng.Int63n(maxx-minx+2*span+1), miny - span + c.Rng.Int63n(maxy-miny+2*span+1)})
+		}
+		for _, ring := range poly {
+			if len(ring) >= 3 {
+				x0, y0, x1, y1 := bbox([][]Pt{ring})
+				locs = append(locs, Pt{(x0 + x1) / 2, (y0 + y1) / 2})
+			}
+		}
+		for _, p := range locs {
 			if nearBoundary(poly, p, span) {
 				continue
 			}
@@ -416,7 +483,13 @@ func evalC04(c *hc.Ctx, g *Grid, poly [][]Pt, kind string, ids []int, cfg snap.C
 			}
 		}
 		if len(bad) > 0 {
-			attribute(hc.Violation{What: fmt.Sprintf("location farther than one pixel from the boundary changed coverage (tile matrix %d)", id), Input: caseJSON(g, poly, ids, cfg, r), Observed: bad}, polysEdges(r.ByID[id])...)
+			v := hc.Violation{What: fmt.Sprintf("location farther than one pixel from the boundary changed coverage (tile matrix %d)", id), Input: caseJSON(g, poly, ids, cfg, r), Observed: bad}
+			if f16Attributable(r.ByID[id], bad) {
+				v.KnownFinding, v.What = "F16", f16What
+				c.Violate(v)
+			} else {
+				attribute(v, polysEdges(r.ByID[id])...)
+			}
 		}
 	}
 	c.Case("SnapC ("+snapCaseTerm(g, poly, ids, cfg, r)+")", caseJSON(g, poly, ids, cfg, r))
